@@ -359,6 +359,14 @@ func (p *Proxy) handleCONNECT(r responder.Responder, proxyReq *http.Request) err
 		if err := p.handleHTTP(tunnelResponder, req); err != nil {
 			slog.Error("Error processing HTTP request in CONNECT tunnel", "host", proxyReq.Host, "error", err)
 		}
+		if tunnelResponder.Failed() {
+			// A response was started but not completed (the upstream body ended short of its Content-Length, a read
+			// from the cache failed, ...). The client is still waiting for the rest of it and would take the next
+			// response for it: closing the tunnel is the only way to signal an incomplete message in HTTP/1.1.
+			// Errors answered with a complete response of our own (502, 416, ...) do not end up here.
+			slog.Warn("Closing CONNECT tunnel after an incomplete response", "host", proxyReq.Host, "url", req.URL)
+			break
+		}
 		// Whatever the handler left unread of this request's body (e.g. when it was answered from the cache)
 		// must not be parsed as the next request of the tunnel.
 		io.Copy(io.Discard, req.Body)
